@@ -2,6 +2,7 @@ package sym
 
 import (
 	"go/types"
+	"hash/fnv"
 
 	"golang.org/x/tools/go/ssa"
 
@@ -148,6 +149,34 @@ func init() {
 				}
 			}
 			return term.BVC(64, ^uint64(0))
+		}
+		// reflect.ValueOf(f).Pointer() for func values only: the code pointer identifies the function body (closures from
+		// one literal share it whatever they captured; method values of one method share the bound wrapper) - exactly
+		// what the runtime gives. The reflect.Value is a carrier {typ_: nil, ptr: the closure, flag: 0}; any other use
+		// of reflect.Value stays unmodelled.
+		I["reflect.ValueOf"] = func(e *Engine, st *State, th *Thread, fn *ssa.Function, a []Value, in *ssa.Call) Value {
+			iv := e.pick(st, a[0]).(Iface)
+			c, ok := e.pick(st, iv.V).(*Closure)
+			if iv.T == nil || !ok {
+				abort("UNMODELLED", "reflect.ValueOf of a non-func value")
+			}
+			return Struct{Ptr{}, c, term.BVC(64, 0)}
+		}
+		I["(reflect.Value).Pointer"] = func(e *Engine, st *State, th *Thread, fn *ssa.Function, a []Value, in *ssa.Call) Value {
+			sv, ok := a[0].(Struct)
+			if !ok || len(sv) != 3 {
+				abort("UNMODELLED", "reflect.Value.Pointer on an unmodelled Value")
+			}
+			c, ok := sv[1].(*Closure)
+			if !ok {
+				abort("UNMODELLED", "reflect.Value.Pointer on a non-func Value")
+			}
+			if c.Fn == nil {
+				return term.BVC(64, 0)
+			}
+			h := fnv.New64a()
+			h.Write([]byte(c.Fn.String()))
+			return term.BVC(64, h.Sum64()|1)
 		}
 		I["reflect.TypeOf"] = func(e *Engine, st *State, th *Thread, fn *ssa.Function, a []Value, in *ssa.Call) Value {
 			iv := e.pick(st, a[0]).(Iface)
